@@ -17,7 +17,7 @@ CONSTANTS
   QCodes = {2424, 2525, 2021, 1624, 1633, 2128}
   MaxBatch = 2
   MaxOps = 4
-  MaxWrites = 3
+  MaxWrites = 2
   MaxTrunc = 0
   CheckEnabled = FALSE
   Record = FALSE
